@@ -1,5 +1,6 @@
 (* Proofs about M9 (Model/Config.v) and about _get_config_param as regenerated from the source. *)
 From Coq Require Import ZArith List Bool Lia ZifyBool Arith.
+Require Import JV.Model.C15Executor JV.Gen.T_executor JV.Proofs.C15Executor.
 Require Import JV.Base.PyPrelude JV.Model.Config JV.Gen.T_config_param JV.Gen.T_active_backend JV.Gen.T_mp_context JV.Gen.T_backend_attrs JV.Gen.T_pool_settings.
 Import ListNotations.
 Open Scope Z_scope.
@@ -751,3 +752,23 @@ Proof. intros [] n; reflexivity. Qed.
 
 Lemma idle_timeout_priority : forall call obj, src_idle_worker_timeout call obj = Ok (gcp call obj 300).
 Proof. intros [c|] [o|]; reflexivity. Qed.
+
+(* ------------------------------------------------- round 8: where the settings are used *)
+Lemma worker_mode_is_resolved : forall resolved,
+  worker_mmap_mode mp_pool_passes_mmap_mode resolved = (if resolved =? 3 then 2 else resolved) /\
+  worker_mmap_mode loky_executor_passes_mmap_mode resolved = (if resolved =? 3 then 2 else resolved) /\
+  mp_pool_passes_max_nbytes = true /\ loky_executor_passes_max_nbytes = true.
+Proof. intros. repeat split; reflexivity. Qed.
+
+(* n_jobs is scoped at the level of the shared loky executor too: whatever blocks ran before (any history of executor
+   operations, e.g. a block with n_jobs = 4 that has been left), the executor a later call with resolved n_jobs = n runs on
+   has exactly n workers once its tasks are submitted -- the earlier block's size does not leak out of its scope *)
+Lemma executor_size_scoped : forall ops n_before args n s' e reused,
+  get_executor n args (erun (ops ++ [OGet n_before args; OSubmit]) init_state) = Ok (s', e, reused) ->
+  x_max e = n /\ 0 <= x_alive e <= n /\
+  (exists e', s_exec (estep s' OSubmit) = Some e' /\ x_max e' = n /\ x_alive e' = n /\ x_id e' = x_id e) /\
+  (forall m cur, resize_noop m cur = true -> m = cur).
+Proof.
+  intros ops n_before args n s' e reused H. destruct (reuse_bounded _ _ _ _ _ _ H) as (A & B & C).
+  repeat split; try assumption; try apply B. exact resize_noop_only_equal.
+Qed.
